@@ -203,15 +203,53 @@ func Alphabet(storedID string) []Input {
 		in("junk", "dupkeys", hControl+`{"connectionHello":[{"phase":"ready"},{"phase":"pending"},{"waiting":1},{"waiting":60000}]}`),
 		in("junk", "plainjson", hControl+`{"connectionHello":{"phase":"ready","waiting":60000}}`),
 		in("junk", "ff", "\xff\xfe\xfd\xfc"))
+	// lexical: strings, quotes and escapes at the places where a scanner of the wire form may run off
+	a = append(a, in("lex", "quote-backslash-end", hControl+`"\`), in("lex", "backslash-only", hControl+`\`), in("lex", "quote-only", hControl+`"`),
+		in("lex", "open-string-backslash", hControl+`{"connectionHello":[{"phase":"ready\`),
+		in("lex", "open-string-2backslash", hControl+`{"connectionHello":[{"phase":"ready\\`),
+		in("lex", "open-string-3backslash", hControl+`{"connectionHello":[{"phase":"ready\\\`),
+		in("lex", "escaped-quote-end", hControl+`{"connectionHello":[{"phase":"ready\"`),
+		in("lex", "backslash-quote-value", hControl+`{"connectionHello":[{"phase":"\\\"ready"},{"waiting":60000}]}`),
+		in("lex", "odd-backslashes", hControl+`{"connectionHello":[{"phase":"a\\\"b\\\\\"c"}]}`),
+		in("lex", "bad-escape", hControl+`{"connectionHello":[{"phase":"\q"}]}`),
+		in("lex", "short-unicode-escape", hControl+`{"connectionHello":[{"phase":"\u12`),
+		in("lex", "lone-surrogate", hControl+`{"connectionHello":[{"phase":"\ud800"}]}`),
+		in("lex", "nul-in-string", hControl+"{\"connectionHello\":[{\"phase\":\"re\x00ady\"}]}"),
+		in("lex", "backslash-nul-end", hControl+`{"a":"b\`+"\x00"),
+		in("lex", "data-open-string-backslash", hData+`{"data":[{"header":[{"protocolId":"ee1.0"}]},{"payload":{"datagram":"x\`),
+		in("lex", "only-quotes", hControl+strings.Repeat(`"`, 33)),
+		in("lex", "only-backslashes", hControl+strings.Repeat(`\`, 33)),
+		in("lex", "quote-backslash-runs", hControl+strings.Repeat(`"\`, 40)))
 	return a
 }
 
 // Mutate derives a byte-level variant of a message (len >= 2 is kept: shorter frames never pass the ws layer).
 func Mutate(r *vc.Rand, base Input) Input {
 	m := append([]byte(nil), base.Msg...)
-	kind := r.Intn(8)
+	kind := r.Intn(10)
 	sub := ""
 	switch kind {
+	case 8: // insert a quote / backslash / both somewhere, or cut right behind one
+		ins := vc.Pick(r, []string{`"`, `\`, `\"`, `\\`, `"\`, `\u`})
+		i := r.Range(1, len(m))
+		m = append(m[:i:i], append([]byte(ins), m[i:]...)...)
+		if r.Chance(1, 2) {
+			m = m[:i+len(ins)]
+		}
+		sub = "esc"
+	case 9: // cut inside a string: behind the k-th quote, optionally with a trailing backslash
+		var qs []int
+		for i, b := range m {
+			if b == '"' {
+				qs = append(qs, i)
+			}
+		}
+		if len(qs) > 0 {
+			i := vc.Pick(r, qs)
+			m = m[:i+1]
+			m = append(m, []byte(vc.Pick(r, []string{"", `\`, `x\`, `\\`, `x`}))...)
+		}
+		sub = "cutstr"
 	case 0: // truncate
 		if len(m) > 2 {
 			m = m[:r.Range(2, len(m)-1)]
